@@ -53,6 +53,8 @@ fn boundary_values() -> Vec<(&'static str, PropertyValue)> {
 const SETUP: &[&str] = &[
     "CREATE (:L0 {k0: 1, k1: 'a'}), (:L0 {k0: 5, k1: 'it\\'s'}), (:L0 {k0: 0}), (:L0 {k0: 9223372036854775807, k1: 'é漢 🙂'})",
     "CREATE (:L0 {k0: 1.5, k1: true})-[:T0 {k0: 1}]->(:L2 {k0: 2})",
+    // :L3 carries a boolean that is true, false and absent (= null): the three truth values
+    "CREATE (:L3 {k0: 1, k2: true}), (:L3 {k0: 2, k2: false}), (:L3 {k0: 3})",
 ];
 
 enum Tpl {
@@ -66,6 +68,15 @@ fn p(i: u32) -> Ex {
 fn bx(e: Ex) -> Box<Ex> {
     Box::new(e)
 }
+fn lb(b: bool) -> Ex {
+    Ex::Lit(PropertyValue::Boolean(b))
+}
+fn not(e: Ex) -> Ex {
+    Ex::Un("not", bx(e))
+}
+fn isnull(e: Ex) -> Ex {
+    Ex::Un("isnull", bx(e))
+}
 
 /// every template, with `$p0` (and `$p1` where two are used)
 fn templates() -> Vec<(&'static str, Tpl)> {
@@ -75,6 +86,11 @@ fn templates() -> Vec<(&'static str, Tpl)> {
         v
     };
     let l1 = |props: Vec<(u32, Ex)>| NPat { var: Some(2), labels: vec![1], props };
+    let m3 = |more: Vec<Cl>| {
+        let mut v = vec![Cl::MatchN(1, vec![3], vec![])];
+        v.extend(more);
+        v
+    };
     vec![
         ("return", Tpl::Model(St { cls: vec![], ret: Some(vec![p(0)]) })),
         ("return-list-map", Tpl::Model(St { cls: vec![], ret: Some(vec![Ex::List(vec![p(0), int(1), Ex::List(vec![p(1)])]), Ex::Map(vec![(0, p(0)), (1, p(1))])]) })),
@@ -130,6 +146,43 @@ fn templates() -> Vec<(&'static str, Tpl)> {
         ("union-second-branch", Tpl::Raw("RETURN 1 AS c0 UNION ALL RETURN $p0 AS c0".into())),
         ("unwind-then-where", Tpl::Raw("UNWIND [1, 2, 5] AS v0 WITH v0 WHERE v0 = $p0 RETURN v0 AS c0".into())),
         ("remove-label-return", Tpl::Raw("MATCH (v1:L2) SET v1.k1 = $p0 REMOVE v1.k0 RETURN v1.k1 AS c0".into())),
+        // --- round 3: three-valued logic.  A parameter (null / true / false / anything) as a DIRECT operand of
+        // AND / OR / XOR / NOT / IN / comparison / CASE condition / coalesce / arithmetic, observed so that
+        // null <> false matters: projected, under NOT, under IS NULL, written by SET, counted, ordered by.
+        ("3vl-return-and-or", Tpl::Model(St { cls: vec![], ret: Some(vec![bin("or", p(0), lb(false)), bin("or", p(0), lb(true)), bin("or", lb(false), p(0)), bin("and", p(0), lb(true)), bin("and", p(0), lb(false)), bin("and", lb(true), p(0))]) })),
+        ("3vl-return-xor-not", Tpl::Model(St { cls: vec![], ret: Some(vec![bin("xor", p(0), lb(true)), not(p(0)), not(bin("and", p(0), lb(true))), not(bin("or", p(0), lb(false))), not(not(p(0)))]) })),
+        ("3vl-return-isnull-of", Tpl::Model(St { cls: vec![], ret: Some(vec![isnull(bin("and", p(0), lb(true))), Ex::Un("notnull", bx(bin("or", p(0), lb(false)))), isnull(bin("or", p(0), p(1))), isnull(bin("xor", p(0), p(1)))]) })),
+        ("3vl-return-two-params", Tpl::Model(St { cls: vec![], ret: Some(vec![bin("and", p(0), p(1)), bin("or", p(0), p(1)), not(bin("and", p(0), p(1))), not(bin("or", p(1), p(0)))]) })),
+        ("3vl-project-with-prop", Tpl::Model(St { cls: m3(vec![]), ret: Some(vec![Ex::Prop(1, 0), bin("and", p(0), Ex::Prop(1, 2)), bin("or", p(0), Ex::Prop(1, 2)), isnull(bin("and", p(0), Ex::Prop(1, 2))), bin("or", Ex::Prop(1, 2), p(0))]) })),
+        ("3vl-where-not-and", Tpl::Model(St { cls: m3(vec![Cl::Filter(not(bin("and", p(0), Ex::Prop(1, 2))))]), ret: Some(vec![Ex::Prop(1, 0)]) })),
+        ("3vl-where-not-or", Tpl::Model(St { cls: m3(vec![Cl::Filter(not(bin("or", p(0), Ex::Prop(1, 2))))]), ret: Some(vec![Ex::Prop(1, 0)]) })),
+        ("3vl-where-top-level", Tpl::Model(St { cls: m3(vec![Cl::Filter(bin("or", p(0), Ex::Prop(1, 2)))]), ret: Some(vec![Ex::Prop(1, 0)]) })),
+        ("3vl-where-top-level-and", Tpl::Model(St { cls: m3(vec![Cl::Filter(bin("and", Ex::Prop(1, 2), p(0)))]), ret: Some(vec![Ex::Prop(1, 0)]) })),
+        ("3vl-where-isnull-of", Tpl::Model(St { cls: m3(vec![Cl::Filter(isnull(bin("and", p(0), Ex::Prop(1, 2))))]), ret: Some(vec![Ex::Prop(1, 0)]) })),
+        ("3vl-where-xor", Tpl::Model(St { cls: m3(vec![Cl::Filter(not(bin("xor", p(0), Ex::Prop(1, 2))))]), ret: Some(vec![Ex::Prop(1, 0)]) })),
+        ("3vl-optional-filter", Tpl::Model(St { cls: m3(vec![Cl::Filter(bin("or", isnull(p(0)), bin("eq", Ex::Prop(1, 0), p(0))))]), ret: Some(vec![Ex::Prop(1, 0)]) })),
+        ("3vl-optional-filter-negated", Tpl::Model(St { cls: m3(vec![Cl::Filter(not(bin("or", isnull(p(0)), bin("eq", Ex::Prop(1, 0), p(0)))))]), ret: Some(vec![Ex::Prop(1, 0)]) })),
+        ("3vl-optional-filter-projected", Tpl::Model(St { cls: m3(vec![]), ret: Some(vec![Ex::Prop(1, 0), bin("or", isnull(p(0)), bin("eq", Ex::Prop(1, 2), p(0))), bin("and", Ex::Un("notnull", bx(p(0))), bin("eq", Ex::Prop(1, 2), p(0)))]) })),
+        ("3vl-with-where", Tpl::Model(St { cls: m3(vec![Cl::With(vec![1], vec![(4, bin("or", p(0), Ex::Prop(1, 2)))]), Cl::Filter(isnull(Ex::Var(4)))]), ret: Some(vec![Ex::Prop(1, 0), Ex::Var(4)]) })),
+        ("3vl-with-where-not", Tpl::Model(St { cls: m3(vec![Cl::With(vec![1], vec![(4, Ex::Prop(1, 2))]), Cl::Filter(not(bin("and", p(0), Ex::Var(4))))]), ret: Some(vec![Ex::Prop(1, 0)]) })),
+        ("3vl-set-rhs-or", Tpl::Model(St { cls: m3(vec![Cl::Set(vec![SetItem::Prop(1, 1, bin("or", p(0), Ex::Prop(1, 2)))])]), ret: None })),
+        ("3vl-set-rhs-and-isnull", Tpl::Model(St { cls: m3(vec![Cl::Set(vec![SetItem::Prop(1, 1, bin("and", p(0), Ex::Prop(1, 2))), SetItem::Prop(1, 0, isnull(bin("or", p(0), Ex::Prop(1, 2))))])]), ret: None })),
+        ("3vl-case-condition", Tpl::Model(St { cls: vec![], ret: Some(vec![Ex::Ite(bx(p(0)), bx(int(1)), bx(int(2))), Ex::Ite(bx(bin("and", p(0), lb(true))), bx(int(1)), bx(int(2))), Ex::Ite(bx(not(bin("or", p(0), lb(false)))), bx(int(1)), bx(int(2))), Ex::Ite(bx(isnull(bin("or", p(0), lb(false)))), bx(int(1)), bx(int(2)))]) })),
+        ("3vl-coalesce", Tpl::Model(St { cls: vec![], ret: Some(vec![bin("coalesce", p(0), int(7)), bin("coalesce", bin("and", p(0), lb(true)), int(7)), bin("coalesce", bin("or", p(0), lb(false)), p(1)), bin("coalesce", not(p(0)), int(7))]) })),
+        ("3vl-arith-null", Tpl::Model(St { cls: vec![], ret: Some(vec![bin("add", p(0), int(1)), bin("sub", int(1), p(0)), bin("mul", p(0), p(1)), Ex::Un("neg", bx(p(0))), isnull(bin("add", p(0), int(1)))]) })),
+        ("3vl-in", Tpl::Model(St { cls: vec![], ret: Some(vec![bin("in", p(0), Ex::List(vec![int(1), int(2)])), bin("in", int(1), Ex::List(vec![p(0), int(2)])), bin("in", int(1), Ex::List(vec![p(0), int(1)])), bin("in", p(0), Ex::List(vec![])), not(bin("in", p(0), Ex::List(vec![int(1), int(2)]))), isnull(bin("in", int(1), Ex::List(vec![p(0), int(2)])))]) })),
+        ("3vl-comparison", Tpl::Model(St { cls: vec![], ret: Some(vec![bin("eq", p(0), p(1)), bin("ne", p(0), int(1)), bin("lt", p(0), int(2)), not(bin("eq", p(0), int(1))), isnull(bin("eq", p(0), int(1))), bin("eq", p(0), p(0)), bin("and", bin("lt", int(0), p(0)), bin("lt", p(0), int(10)))]) })),
+        ("3vl-comparison-chain", Tpl::Raw("RETURN 0 < $p0 < 10 AS c0, NOT (0 < $p0 < 10) AS c1, (0 < $p0 < 10) IS NULL AS c2".into())),
+        ("3vl-orderby-key", Tpl::Raw("MATCH (v1:L3) WITH v1 ORDER BY ($p0 OR v1.k2), v1.k0 RETURN collect(v1.k0) AS c0".into())),
+        ("3vl-orderby-limit", Tpl::Raw("MATCH (v1:L3) RETURN v1.k0 AS c0 ORDER BY ($p0 AND v1.k2) DESC, v1.k0 DESC LIMIT 1".into())),
+        ("3vl-aggregate-arg", Tpl::Raw("MATCH (v1:L3) RETURN count($p0 OR v1.k2) AS c0, count($p0 AND v1.k2) AS c1, count(NOT ($p0 AND v1.k2)) AS c2".into())),
+        ("3vl-where-not-xor-raw", Tpl::Raw("MATCH (v1:L3) WHERE NOT ($p0 XOR v1.k2) RETURN v1.k0 AS c0".into())),
+        ("3vl-rel-where-not", Tpl::Raw("MATCH (v1:L0)-[v2:T0]->(v3:L2) WHERE NOT ($p0 AND v2.k0 = 1) RETURN v3.k0 AS c0".into())),
+        ("3vl-optional-match-where", Tpl::Raw("OPTIONAL MATCH (v1:L3) WHERE NOT ($p0 OR v1.k2) RETURN v1.k0 AS c0".into())),
+        ("3vl-set-then-return", Tpl::Raw("MATCH (v1:L3) SET v1.k1 = NOT ($p0 AND v1.k2) RETURN v1.k0 AS c0, v1.k1 AS c1".into())),
+        ("3vl-distinct-bool", Tpl::Raw("MATCH (v1:L3) RETURN DISTINCT ($p0 AND v1.k2) AS c0".into())),
+        ("3vl-list-of-conn", Tpl::Raw("RETURN [$p0 AND true, $p0 OR false, NOT $p0] AS c0, {k0: ($p0 OR false)} AS c1".into())),
+        ("3vl-comprehension-filter", Tpl::Raw("RETURN [x IN [true, false, null] WHERE NOT ($p0 AND x) | x] AS c0, [x IN [true, false, null] | ($p0 OR x)] AS c1".into())),
     ]
 }
 
@@ -270,10 +323,16 @@ fn main() {
         for (name, tpl) in &tpls {
             for (_, v0) in &vals {
                 run(name, tpl, v0, &PropertyValue::Integer(1), &mut cases);
+                if name.starts_with("3vl-") {
+                    // the three truth values as the companion parameter
+                    for v1 in [PropertyValue::Null, PropertyValue::Boolean(true), PropertyValue::Boolean(false)] {
+                        run(name, tpl, v0, &v1, &mut cases);
+                    }
+                }
             }
         }
         rep.exhaustive = true;
-        rep.exhaustive_note = format!("{} templates x {} boundary values for $p0 with $p1 = 1; plus random (template, $p0, $p1) triples", tpls.len(), vals.len());
+        rep.exhaustive_note = format!("{} templates x {} boundary values for $p0 with $p1 = 1 (the 3vl-* templates also with $p1 in null/true/false); plus random (template, $p0, $p1) triples", tpls.len(), vals.len());
         let mut rng = Rng::new(vharness::util::fnv(&format!("c35-{}", args.seed)));
         let n_rand = if args.thorough() { 6000 } else { 500 };
         for _ in 0..n_rand {
@@ -351,6 +410,12 @@ fn main() {
                 let ok = it.next() == Some("ok");
                 let rows = it.next().unwrap_or("");
                 let graph = it.next().unwrap_or("");
+                if what == "param" && mok && !ok {
+                    // the engine refuses where the model answers: admissible for the parameter
+                    // path (the property allows an error), counted, not a disagreement
+                    rep.count("param_path_refused_where_model_answers");
+                    return true;
+                }
                 if mok != ok {
                     return false;
                 }
